@@ -42,6 +42,10 @@ def main():
         env = dict(os.environ, PYTHONPATH=d)
         os.makedirs(f"{d}/SEED", exist_ok=True)
         shutil.copy(f"{dst}/demo.py", f"{d}/SEED/demo{i}.py")
+        for extra in os.listdir(src):            # helper modules a demonstration imports (kept next to demo.py)
+            if extra.endswith(".py") and not extra.startswith(("demo", "_")):
+                shutil.copy(f"{src}/{extra}", f"{d}/SEED/{extra}")
+                shutil.copy(f"{src}/{extra}", f"{dst}/{extra}")
         rc0, out0 = sh(["/venv/bin/python", f"SEED/demo{i}.py"], d, env)
         meta["demo_without_change_exit"] = rc0
         rca, outa = sh(["git", "apply", f"{dst}/patch.diff"], d)
